@@ -97,32 +97,6 @@ theorem find_of_mem : ∀ (ns : List String) (ts : List Ty) (os : List Bool) (n 
       · exact absurd rfl hn
       · exact find_of_mem ns ts os n (by simpa using h1) (by simpa using h2) hm
 
-/-- the raw payload of a shaped, known, non-null value is the one its type dictates -/
-theorem shaped_known_cases {t : Ty} {raw : Payload} (hs : shaped t raw = true)
-    (hm : raw.isMarked = false) (hnull : raw ≠ .null) (hknown : ∀ r, raw ≠ .unk r) :
-    match t with
-    | .list _ => ∃ vs, raw = .seq vs
-    | .tuple ts => ∃ vs, raw = .seq vs ∧ ts.length = vs.length
-    | .map _ => ∃ ks vs, raw = .smap ks vs
-    | .object ns ts os => ∃ vs, raw = .smap ns vs ∧ ns.length = ts.length ∧ os.length = ts.length
-    | _ => True := by
-  cases t <;> cases raw <;>
-    first
-    | trivial
-    | (exfalso; exact Bool.noConfusion (show false = true from hs))
-    | (exfalso; exact hnull rfl)
-    | (exfalso; exact hknown _ rfl)
-    | (exfalso; simp [Payload.isMarked] at hm; done)
-    | (simp only [shaped, Bool.and_eq_true, beq_iff_eq, decide_eq_true_eq] at hs; simp_all)
-
-/-- what `isNull` / `isKnown` say about the raw payload -/
-theorem raw_of_flags {v : Value} (hnull : v.isNull = false) (hknown : v.isKnown = true) :
-    v.v.unmark1 ≠ .null ∧ ∀ r, v.v.unmark1 ≠ .unk r := by
-  simp only [Value.isNull, Payload.isNull, Value.isKnown, Payload.isKnown] at hnull hknown
-  constructor
-  · intro h; rw [h] at hnull; cases hnull
-  · intro r h; rw [h] at hknown; cases hknown
-
 theorem unmark1_idem {p : Payload} (h : p.unmark1.isMarked = false) : p.unmark1.unmark1 = p.unmark1 := by
   cases hp : p.unmark1 <;> simp_all [Payload.unmark1, Payload.isMarked]
 
